@@ -49,6 +49,8 @@ PROGRAMS.append({"id": "m_nosrc", "text": _NS, "values": {"c": "x = 1\\ny = [x, 
                                                          "m": "verifnosrc_{v}"}})
 PROGRAMS.append({"id": "m_frozen", "text": _NS, "values": {"c": "x = 1\\ny = [x, 2.5]\\n", "e": "'x = 1' + linesep + 'y = [x, 2.5]' + linesep",
                                                           "m": "__hello__"}})
+# an asynchronous generator expression directly at module level (legal; compile flags must not change what it means)
+PROGRAMS.append({"id": "async_genexp", "text": "y = []\nz = (x async for x in y)\n"})
 # the FILE source given as a stream (/dev/stdin fed by a pipe): it can be read only once
 PROGRAMS.append({"id": "file_stdin", "text": _NS, "stdin": True,
                  "values": {"c": "x = 1\\ny = [x, 2.5]\\n", "e": "'x = 1' + linesep + 'y = [x, 2.5]' + linesep", "m": "verifmod_file_stdin"}})
